@@ -10,7 +10,7 @@ from __future__ import annotations
 import copy
 from typing import Any
 
-from .build import Env, make_function, py_val
+from .build import _EMIT_SENTINEL, Env, make_function, py_val
 
 _MISSING = object()
 
@@ -221,6 +221,7 @@ def eval_gated(program: list[dict], gi: int, provided: dict[str, Any], env: Env)
     state: dict[str, Any] = dict(provided)
     done: set[str] = set()
     dead: set[str] = set()
+    signals: set[str] = set()
     decisions: dict[str, Any] = {}
     progress = True
     while progress and res.error is None:
@@ -256,6 +257,12 @@ def eval_gated(program: list[dict], gi: int, provided: dict[str, Any], env: Env)
                     kwargs[orig] = copy.deepcopy(py_val(d["d"]))
                 else:
                     unsat = True
+            for w in n.get("waitFor", []):
+                prods = [p for p in producers.get(w, []) if p != name]
+                if any(p not in done and p not in dead for p in prods) and w not in provided:
+                    waiting = True
+                elif w not in state:
+                    unsat = True
             if waiting:
                 continue
             progress = True
@@ -272,6 +279,9 @@ def eval_gated(program: list[dict], gi: int, provided: dict[str, Any], env: Env)
             res.calls.append((f"{gi}:{name}", dict(kwargs)))
             done.add(name)
             res.ran.append(name)
+            for sgn in n.get("emits", []):
+                state[sgn] = _EMIT_SENTINEL          # an ordering signal is a value like any other for whoever reads it as an input
+                signals.add(sgn)
             if n["kind"] == "ifelse":
                 decisions[name] = py_dec(n["targets"][0] if out else n["targets"][1])
             elif n["kind"] == "route":
@@ -285,6 +295,6 @@ def eval_gated(program: list[dict], gi: int, provided: dict[str, Any], env: Env)
                     state[douts[0]] = out
                 elif len(douts) > 1:
                     state.update(zip(douts, out, strict=True))
-    res.values = {k: v for k, v in state.items() if k in producers}
+    res.values = {k: v for k, v in state.items() if k in producers and k not in signals}
     res.decisions = decisions  # type: ignore[attr-defined]
     return res
